@@ -514,6 +514,20 @@ def rules_new_clear(prog, res):
                 okd2 = inner.op == "repeat" and is_const(inner.args[0]) and const_val(inner.args[0]) == 0 and inner.args[1] == 1029
                 oku2 = data0.args[1] == (("i", mk("const", "usize", 0)),) and is_const(data0.args[2]) and const_val(data0.args[2]) == 0xD3
                 ok = okd2 and oku2
+        if not ok:
+            # the same question asked of the body itself: new() takes no input, so it can simply be evaluated
+            try:
+                import guardsem
+                val = guardsem.eval_constructor(prog, MB + "::new")
+                if isinstance(val, guardsem.Adt) and len(val.fields) == len(fields):
+                    dv = val.fields[fields.index("data")]
+                    rv_ = val.fields[fields.index("has_run")]
+                    cv = lambda x: x.concrete() if hasattr(x, "concrete") else x
+                    if isinstance(dv, list) and len(dv) == 1029 and cv(dv[0]) == 0xD3 and all(cv(x) == 0 for x in dv[1:]) and cv(rv_) in (0, False):
+                        ok = True
+                        d = "evaluated: data = [0xD3, 0, .. 0] (1029 bytes), has_run = false"
+            except Exception as e:       # outside the evaluator's subset: the template verdict stands
+                d += " ; evaluation: %r" % (e,)
         res.ob("T-new", "new | data = [0; 1029] with data[0] = 0xD3, has_run = false", ok, d, f.loc, sample=d)
         rule_other_state(prog, res, fields)
     # only `new` builds a MessageBuilder / stores has_run=false
